@@ -177,11 +177,12 @@ class Rule(object):
         ).check_validity_of(
             "scheme", "host", "path"
         )
-        uri = uri_reference(val)
         try:
+            # A string that cannot be encoded (lone surrogate) is not a URI
+            uri = uri_reference(val)
             validator.validate(uri)
             is_valid = True
-        except (InvalidComponentsError, MissingComponentError, UnpermittedComponentError) as ex:
+        except (InvalidComponentsError, MissingComponentError, UnpermittedComponentError, UnicodeError) as ex:
             logger.debug(ex)
         return is_valid
 
